@@ -236,6 +236,14 @@ def evaluate(c: Dict[str, Any]) -> Tuple[List[Any], Dict[str, Any]]:
 
 
 def replay(case: Dict[str, Any]) -> List[Dict[str, Any]]:
+    if case.get('tls_upstream'):
+        from vf.props import c12_tls
+        try:
+            with K.unpatched():
+                vs, _ = c12_tls.evaluate(case)
+        finally:
+            c12_tls.stop()
+        return [{'property': ID, 'clause': cl, 'features': ft, 'case': case, 'observed': ob, 'expected': ex} for (cl, ft, ob, ex) in vs]
     vs, _ = evaluate(case)
     return [{'property': ID, 'clause': cl, 'features': ft, 'case': case, 'observed': ob, 'expected': ex} for (cl, ft, ob, ex) in vs]
 
@@ -290,10 +298,30 @@ def cases(draw: Any) -> Dict[str, Any]:
 
 def shards(tier: str) -> List[Dict[str, Any]]:
     q = tier == 'quick'
-    return [{'name': 'routes-%02d' % i, 'examples': 280 if q else 4000} for i in range(16)]
+    return [{'name': 'routes-%02d' % i, 'examples': 280 if q else 4000} for i in range(16)] + \
+        [{'name': 'tls-upstream-%d' % i, 'kind': 'tlslive', 'examples': 40 if q else 500} for i in range(2 if q else 6)]
 
 
 def run_shard(spec: Dict[str, Any], seed: int, acc: Any) -> None:
+    if spec.get('kind') == 'tlslive':
+        import shutil
+        from vf.props import c12_tls
+        if shutil.which('openssl') is None:
+            raise RuntimeError('openssl is required for the live TLS tier of C12')
+
+        def chk_tls(c: Dict[str, Any]) -> List[Any]:
+            vs, info = c12_tls.evaluate(c)
+            if info.get('inconclusive'):
+                acc.dontcare += 1
+            acc.case(c, info['nt'], labels=['live-https-upstream', 'rewrite:%s' % c['rewrite'], 'requests:%d' % len(c['reqs']), 'routed:%d' % info['routed'],
+                                            'response-bytes:%d' % c['resp_size']] + sorted({'path:' + r_['target'].decode() for r_ in c['reqs']}))
+            return vs
+        try:
+            with K.unpatched():
+                hyp.drive(c12_tls.cases(), chk_tls, acc, max_examples=spec['examples'], seed=seed, shrink=False, max_rounds=6)
+        finally:
+            c12_tls.stop()
+        return
     def chk(c: Dict[str, Any]) -> List[Any]:
         vs, info = evaluate(c)
         labs = ['matches:%d' % min(info['matches'], 3), 'routes:%d' % info['nroutes'], 'rewrite:%s' % c['rewrite']]
